@@ -110,7 +110,24 @@ def c_r_role(ctx):
     return _judge(byfn, ["bad_swapped"], ["good_copy"])
 
 
-CONTROLS = {"r_role": c_r_role, "r_err": c_r_err, "r_probe": c_r_probe, "r_order": c_r_order}
+def c_r_short(ctx):
+    import r_short, r_order as ro
+    fx = ctx.fx("F")
+    saved = ro.fns_in_scope
+    def scope(fx_, crates=None):
+        for f in fx_.fns.values():
+            if f.path.startswith("xcpv_fixtures::short::"):
+                yield f
+    ro.fns_in_scope = scope
+    try:
+        obs, summ = r_short.run(fx, "F")
+    finally:
+        ro.fns_in_scope = saved
+    byfn = _by_fn(obs, "xcpv_fixtures::short::")
+    return _judge(byfn, ["bad_single_shot", "bad_write_once"], ["good_loop", "good_compare"])
+
+
+CONTROLS = {"r_short": c_r_short, "r_role": c_r_role, "r_err": c_r_err, "r_probe": c_r_probe, "r_order": c_r_order}
 
 
 def run(name, ctx):
